@@ -269,9 +269,12 @@ theorem reachable_induction {P : Params} {Inv : State → Prop} (h0 : Inv init)
 caller's `dialOpts...` INTO it — it never appends onto, or writes into, the caller's slice -/
 structure DialParams where
   optsFresh : Bool
+  /-- `DialWithOptions` (non-multiplexed path) holds no broker-wide lock while it waits for the connection info: its
+  five-second wait runs concurrently with every other dial's -/
+  waitsUnlocked : Bool
   deriving DecidableEq, Repr
 
-def DialParams.Good (D : DialParams) : Prop := D.optsFresh = true
+def DialParams.Good (D : DialParams) : Prop := D.optsFresh = true ∧ D.waitsUnlocked = true
 
 instance (D : DialParams) : Decidable D.Good := by unfold DialParams.Good; exact inferInstance
 
@@ -281,5 +284,10 @@ instance (D : DialParams) : Decidable D.Good := by unfold DialParams.Good; exact
 each dial keeps its own dialer. -/
 def dialReaches (D : DialParams) (id other : Nat) (otherWroteLast : Bool) : Nat :=
   if D.optsFresh then id else if otherWroteLast then other else id
+
+/-- When `k` other unmatched dials were issued before this one (all still waiting), the time (ms after its own start) by
+which this dial has returned: one window when the waits overlap, one window per earlier dial more when a broker-wide
+lock serialises them. -/
+def dialReturnsBy (D : DialParams) (window k : Nat) : Nat := if D.waitsUnlocked then window else window * (k + 1)
 
 end GoPlugin.GrpcBroker
